@@ -5,14 +5,29 @@ namespace Librfn.Driver.Mlog
 open Librfn.Driver Librfn.Model.Mlog
 
 abbrev Rec := Nat × Nat × Nat × Nat
-def render (r : Rec) : String := s!"F{r.1} {r.2.1} {r.2.2.1} {r.2.2.2}"
+def strs : List String := ["", "a", "hello", "percent%sign and spaces"]
+def xs (n : Nat) : String := String.ofList (List.replicate n 'x')
+def padLeft (w : Nat) (s : String) : String := String.ofList (List.replicate (w - s.length) ' ') ++ s
+
+/-- what printf produces for format `r.1` of the harness's table with the recorded arguments -/
+def render (r : Rec) : String :=
+  let (f, a, b, c) := r
+  if f < 8 then s!"F{f} {a} {b} {c}"
+  else if f == 8 then "L" ++ xs 150 ++ s!" {a} {b} {c}"
+  else if f == 9 then "M" ++ xs 121 ++ s!"{a}"
+  else if f == 10 then "W[" ++ padLeft (a % 13) (toString b) ++ s!"]{c}"
+  else if f == 11 then s!"P%|{a}|%{b}|{c}"
+  else if f == 12 then s!"S {strs.getD (a % 4) ""} {b} {c}"
+  else if f == 13 then "T" ++ ((strs.getD (b % 4) "").take (a % 7)).toString ++ s!"|{c}"
+  else if f == 14 then ""
+  else "no conversions at all"
 def init : St Rec := ⟨fun _ => (0, 0, 0, 0), 0⟩
 
 def stepLine (s : St Rec) (w : List String) : St Rec × List String :=
   match w with
   | ["--"] => (s, ["--"])
-  | ["log", i, a, b, c] => if natOk i && natOk a && natOk b && natOk c then (log s (nat! i % 8, nat! a, nat! b, nat! c), ["ok"]) else (s, ["bad-op"])
-  | ["nice", i, a, b, c] => if natOk i && natOk a && natOk b && natOk c then (logNice s (nat! i % 8, nat! a, nat! b, nat! c), ["ok"]) else (s, ["bad-op"])
+  | ["log", i, a, b, c] => if natOk i && natOk a && natOk b && natOk c then (log s (nat! i % 16, nat! a, nat! b, nat! c), ["ok"]) else (s, ["bad-op"])
+  | ["nice", i, a, b, c] => if natOk i && natOk a && natOk b && natOk c then (logNice s (nat! i % 16, nat! a, nat! b, nat! c), ["ok"]) else (s, ["bad-op"])
   | ["clear"] => (clear s, ["ok"])
   | ["reset"] => (init, ["ok"])
   | ["sethead", h] => if natOk h then ({ s with head := nat! h }, ["ok"]) else (s, ["bad-op"])
